@@ -106,7 +106,7 @@ pub fn run(tier: Tier, seed: u64, only: Option<usize>) -> i32 {
         "select() has millisecond granularity, as in trippy's real socket implementation".into(),
     ];
     rep.required_clauses = vec!["published_only_when_policy_allows", "reason_tells_which", "never_held_longer_than_max_plus_read_timeout", "next_round_starts_at_publish"];
-    let n = tier.pick(2000, 60_000);
+    let n = tier.pick(50_000, 1_500_000);
     match only {
         Some(i) => {
             let o = run_scenario(seed, i, tier);
